@@ -222,7 +222,9 @@ theorem logTaylor_one (G : Sem) (hG : G.WF) : logTaylor (Flt.one G false) = Flt.
   have hd : divWithRm (Flt.zero G false) (fromU64 G (0 * 2 + 1)) .none = Flt.zero G false := by
     rw [show 0 * 2 + 1 = 1 from rfl, fromU64_one G hG]
     exact zero_div_pos G _ _ (Or.inl rfl) rfl
-  rw [show (50 : Nat) = 48 + 1 + 1 from rfl]
+  obtain ⟨n, hn⟩ : ∃ n, Nat.max 50 G.p = n + 1 + 1 :=
+    ⟨Nat.max 50 G.p - 2, by have : 50 ≤ Nat.max 50 G.p := Nat.le_max_left 50 G.p; omega⟩
+  rw [hn]
   rw [logTaylorLoop]
   simp only [hb1, Bool.false_eq_true, if_false, hd, zero_add_zero]
   rw [logTaylorLoop]
